@@ -2,7 +2,10 @@ package mon
 
 import (
 	"bytes"
+	"crypto/md5"
 	"crypto/sha1"
+	"crypto/sha256"
+	"crypto/sha512"
 	"encoding/hex"
 	"fmt"
 	"hash"
@@ -27,7 +30,7 @@ func init() { register(c13{}) }
 func (c13) ID() string    { return "C13" }
 func (c13) Level() string { return "fault_enumeration" }
 func (c13) Rule() string {
-	return "for bodies {empty, 1 B, 100 B text, 5 KiB text, 70 KiB incompressible, 200 KiB multi-block} written through the real cache.CreateLevel/Write/Close (chunked like the CLI's 4 KiB bufio writer): (1) control: the finished entry opens and reads back exactly the body; (2) every byte offset x {8 single-bit masks, 0x00, 0xFF, complement} of the finished file (all offsets for files <= 8 KiB and for the 60-byte header of every file, sampled offsets beyond: quick 300, thorough 20000 per file); (3) every truncation length (all for small files, all header lengths + sampled for big ones); (4) appended tails {1 B, 60 B, a whole second entry}; (5) the entry stored under the name of a different root/data digest and opened with the other key, and opened in place with a different rsum or dsum; (6) crash points through hook H1 on the real write path: after create, after the placeholder header, before every body write, after flate close, after the body hash, before the final header, tear:K for every K in 0..60, after the header - each followed by cache.Open; (7) the real CLI `gts clear|reverse|complement` SIGKILLed at every H1/H2 point of its own write path, and run under strace with ENOSPC/EIO injected into the N-th write(2) on the cache entry for every N; then the identical command run clean over the same cache directory must equal the uncached reference (and a faulted run that exits 0 must have printed the reference output); (8) whole entries through the CLI: a 2.6 MB three-record FASTA stream through gts reverse / gts complement -F fasta twice over one cache directory (the second run is a traced hit), and two different inputs on stdin with the same arguments, each twice, every run equal to its --no-cache reference. Oracle: Open err==nil => ReadAll == exactly the written body; every damaged state must fail to open. non-trivial: a fault was actually applied (state differs from the finished entry); distinct: (body, fault kind, parameter). (9) control cases over {GenBank record, 8-record stream, FASTA, small record, empty} x levels {Create default, 0, 1, 2, 5, 6, 9, Huffman-only} x {a hash per call, one hash with a lookup of another key between Create and Close, one hash with a second entry and a caller digest in between}; the write(2) error injection of (7) also on a 48-record stream (failures in the middle of the body). Both entries of (9) are opened before either is read; gts insert / gts search are run over one cache directory with two files under one name; every CLI crash point is also taken with SIGTERM and SIGINT (hook action term/int), followed by two clean reruns. After every in-process crash the File is dropped and a garbage collection forced before the entry is opened (an abandoned writer stays unfinished); a worker death whose report shows a panic or fatal error inside go-gts/gts is a violation even when the last case alone does not reproduce it."
+	return "for bodies {empty, 1 B, 100 B text, 5 KiB text, 70 KiB incompressible, 200 KiB multi-block} written through the real cache.CreateLevel/Write/Close (chunked like the CLI's 4 KiB bufio writer): (1) control: the finished entry opens and reads back exactly the body; (2) every byte offset x {8 single-bit masks, 0x00, 0xFF, complement} of the finished file (all offsets for files <= 8 KiB and for the 60-byte header of every file, sampled offsets beyond: quick 300, thorough 20000 per file); (3) every truncation length (all for small files, all header lengths + sampled for big ones); (4) appended tails {1 B, 60 B, a whole second entry}; (5) the entry stored under the name of a different root/data digest and opened with the other key, and opened in place with a different rsum or dsum; (6) crash points through hook H1 on the real write path: after create, after the placeholder header, before every body write, after flate close, after the body hash, before the final header, tear:K for every K in 0..60, after the header - each followed by cache.Open; (7) the real CLI `gts clear|reverse|complement` SIGKILLed at every H1/H2 point of its own write path, and run under strace with ENOSPC/EIO injected into the N-th write(2) on the cache entry for every N; then the identical command run clean over the same cache directory must equal the uncached reference (and a faulted run that exits 0 must have printed the reference output); (8) whole entries through the CLI: a 2.6 MB three-record FASTA stream through gts reverse / gts complement -F fasta twice over one cache directory (the second run is a traced hit), and two different inputs on stdin with the same arguments, each twice, every run equal to its --no-cache reference. Oracle: Open err==nil => ReadAll == exactly the written body; every damaged state must fail to open. non-trivial: a fault was actually applied (state differs from the finished entry); distinct: (body, fault kind, parameter). (9) control cases over {GenBank record, 8-record stream, FASTA, small record, empty} x levels {Create default, 0, 1, 2, 5, 6, 9, Huffman-only} x {a hash per call, one hash with a lookup of another key between Create and Close, one hash with a second entry and a caller digest in between}; the write(2) error injection of (7) also on a 48-record stream (failures in the middle of the body). Both entries of (9) are opened before either is read; gts insert / gts search are run over one cache directory with two files under one name; every CLI crash point is also taken with SIGTERM and SIGINT (hook action term/int), followed by two clean reruns. After every in-process crash the File is dropped and a garbage collection forced before the entry is opened (an abandoned writer stays unfinished); a worker death whose report shows a panic or fatal error inside go-gts/gts is a violation even when the last case alone does not reproduce it. Entries written and read with MD5, SHA-256 and SHA-512; the corpus record and its CRLF twin through gts reverse over one cache directory."
 }
 func (c13) Assumptions() []string {
 	return []string{"crash = process death with the operating system surviving (bytes handed to write(2) persist, bytes buffered in the flate writer are lost); no fsync / power-loss model",
@@ -37,7 +40,7 @@ func (c13) Assumptions() []string {
 func (c13) RequiredBuckets(tier string) []string {
 	return []string{"control:clean-entry-reads-back", "flip:header", "flip:body", "truncate", "extend", "wrong-key:renamed", "wrong-key:in-place",
 		"crash:created", "crash:placeholder", "crash:body-write", "crash:flate-closed", "crash:hashed", "crash:pre-header", "crash:post-header", "tear",
-		"fault:open-failed", "crash:over-an-earlier-entry", "cli:crash-then-clean-run", "cli:catchable-signal-then-clean-run", "cli:multi-MiB-output", "cli:two-inputs,-same-arguments", "cli:two-files-under-one-name,-same-arguments-and-input", "body:empty", "body:multi-block", "body:stored-size-block-aligned", "body:several-MiB", "writers:overlapping", "control:level:-1", "control:level:9", "control:caller:1", "control:caller:2", "control:genbank-record", "cli:io-error-in-the-middle-of-a-large-body"}
+		"fault:open-failed", "crash:over-an-earlier-entry", "cli:crash-then-clean-run", "cli:catchable-signal-then-clean-run", "cli:multi-MiB-output", "cli:two-inputs,-same-arguments", "cli:two-files-under-one-name,-same-arguments-and-input", "body:empty", "body:multi-block", "body:stored-size-block-aligned", "body:several-MiB", "writers:overlapping", "control:level:-1", "control:level:9", "control:caller:1", "control:caller:2", "control:genbank-record", "control:digest:md5", "control:digest:sha256", "cli:io-error-in-the-middle-of-a-large-body"}
 }
 
 type body struct {
@@ -511,6 +514,59 @@ func (m c13) levelsAndCallers(c *fw.Ctx, x *c13ctx) {
 	small := []byte("LOCUS       X 10 bp DNA linear UNA 01-JAN-2020\nFEATURES             Location/Qualifiers\n     source          1..10\n                     /organism=\"x\"\nORIGIN      \n        1 acgtacgtac\n//\n")
 	bodies := []body{{"genbank-record", gbk}, {"genbank-stream-of-8", bytes.Repeat(gbk, 8)}, {"fasta-record", fasta}, {"small-genbank-record", small}, {"empty", nil}}
 	levels := []int{-1, 1, 2, 5, 6, 9, 0, -2}
+	// the digest is the caller's choice (the API takes a hash.Hash): every
+	// size a caller may bring.
+	type hk struct {
+		name string
+		mk   func() hash.Hash
+	}
+	for _, h := range []hk{{"md5", md5.New}, {"sha256", sha256.New}, {"sha512", sha512.New}} {
+		for _, bd := range bodies[:3] {
+			if !c.NextShared() {
+				continue
+			}
+			enc := fmt.Sprintf("control: %s (%d bytes) stored and read back with %s as the digest", bd.name, len(bd.data), h.name)
+			c.Begin(enc)
+			c.Count(enc, true)
+			c.Bucket("control:digest:" + h.name)
+			cache.VerifPlan = func(string, int) string { return "" }
+			cache.VerifReset()
+			sub := filepath.Join(x.dir, "digest-"+h.name)
+			os.MkdirAll(sub, 0755)
+			size := h.mk().Size()
+			big := sha512.Sum512([]byte("levels-digest-" + bd.name))
+			rs, ds := append([]byte(nil), big[:size]...), append([]byte(nil), big[64-size:]...)
+			var got []byte
+			var oerr error
+			pn, val, site, stack := fw.Guard(func() {
+				var f *cache.File
+				if f, oerr = cache.CreateLevel(sub, h.mk(), rs, ds, 1); oerr != nil {
+					return
+				}
+				if _, oerr = f.Write(bd.data); oerr != nil {
+					return
+				}
+				if oerr = f.Close(); oerr != nil {
+					return
+				}
+				var g *cache.File
+				if g, oerr = cache.Open(sub, h.mk(), rs, ds); oerr != nil {
+					return
+				}
+				got, oerr = io.ReadAll(g)
+				g.Close()
+			})
+			os.RemoveAll(sub)
+			switch {
+			case pn:
+				c.ViolateX("control:"+panicClass(site, val), enc, "no panic", fmt.Sprint(val), stack, nil)
+			case oerr != nil:
+				c.Violate("control:finished-entry-not-readable", enc, "the entry opens and reads back", oerr.Error())
+			case !bytes.Equal(got, bd.data):
+				c.Violate("control:finished-entry-reads-other-bytes", enc, fmt.Sprintf("%d bytes as written", len(bd.data)), fmt.Sprintf("%d bytes", len(got)))
+			}
+		}
+	}
 	for _, bd := range bodies {
 		for _, lv := range levels {
 			for mode := 0; mode < 3; mode++ {
@@ -935,6 +991,7 @@ func (m c13) cliEntries(c *fw.Ctx, env *cli.Env, phix []byte) {
 		{"multi-MiB output", []string{"complement", "-F", "fasta"}, [][]byte{big.Bytes()}, nil},
 		{"two inputs, same arguments", []string{"reverse"}, [][]byte{phix, other}, nil},
 		{"two inputs, same arguments", []string{"clear"}, [][]byte{other, phix}, nil},
+		{"two inputs, same arguments", []string{"reverse"}, [][]byte{phix, bytes.ReplaceAll(phix, []byte("\n"), []byte("\r\n"))}, nil},
 		{"two files under one name, same arguments and input", []string{"insert", "10", auxPath}, [][]byte{phix, phix}, [][]byte{auxA, auxB}},
 		{"two files under one name, same arguments and input", []string{"insert", "10", auxPath}, [][]byte{phix, phix}, [][]byte{bigA, bigB}},
 		{"two files under one name, same arguments and input", []string{"search", auxPath}, [][]byte{phix, phix}, [][]byte{auxB, auxA}},
